@@ -565,7 +565,8 @@ impl PeekByte for Variant {
                 let bytes = i32_to_bytes(*i);
                 Ok(bytes[address])
             }
-            _ => todo!(),
+            // only INTEGER variables are emulated as memory
+            _ => Err(RuntimeError::IllegalFunctionCall),
         }
     }
 }
@@ -596,7 +597,8 @@ impl PokeByte for Variant {
                 *i = bytes_to_i32(bytes);
                 Ok(())
             }
-            _ => todo!(),
+            // only INTEGER variables are emulated as memory
+            _ => Err(RuntimeError::IllegalFunctionCall),
         }
     }
 }
